@@ -1551,7 +1551,7 @@ impl Property for C11 {
     fn enumerated(&self, tier: Tier) -> Vec<Value> { enum_plans(tier).into_iter().map(|p| serde_json::to_value(p).unwrap()).collect() }
     fn descr(&self) -> Descr {
         Descr {
-            level: "exploration + enumeration",
+            level: "fault_enumeration",
             rule: "seeded plans: endpoint pair (real WorkerSession <-> worker event-loop transcription, hub session loop with the real extract_messages <-> plain API user, or a raw byte writer -> any of the four), buffer_size 16..4096, max_buffer_size 24..65536, frame sizes biased to 8..40, buffer_size, 2x, max/2, max-8, max, max+1; owner-driven plans (write_message, owner turns under an edge-triggered event model, relay pull/push) and raw-API plans (write_message/writable/run/readable/read_message/handle_events in any order, finished by a plain run()+read loop); relay quantum 1, 1..16, ~buffer_size, uniform or everything; SO_SNDBUF 4608..default; injected short writes and EAGAIN on the channel sockets; stall plans (receiver does not read); fault plans: len<8, len>max (max+1..usize::MAX), undecodable payload, bit flip, truncation, garbage between well-formed frames, EOF at a random point; enumerated plans: every split position (thorough: every pair of positions) of short sequences in both directions, every split position around each malformed kind for every owner, EOF at every offset. A run is non-trivial when >=1 message was delivered end-to-end (plain) or >=1 malformed frame reached the reader's socket or >=1 message was delivered (fault). distinct = distinct hashes over configuration, all operations, their results and the observed buffer states after every step",
             assumptions: vec!["nonblocking channels only (the mode both event loops use)", "buffer_size <= max_buffer_size on both ends, same max on both ends", "edge-triggered readiness: an owner gets an event only after new bytes arrived, write space appeared, the peer closed, or an injected EAGAIN was re-armed; the event carries the level state from poll(2)", "release semantics (debug assertions off)", "x86-64 Linux (8-byte length prefix)"],
             real: vec!["sozu_command_lib::channel::Channel (both ends)", "sozu_command_lib::buffer::growable::Buffer", "sozu::command::sessions::{WorkerSession::ready, extract_messages, wants_to_tick}", "prost encode/decode of WorkerRequest/WorkerResponse/Request/Response", "Linux AF_UNIX stream sockets"],
